@@ -23,7 +23,8 @@ FLD_MSG_RULE = ("field histories over generated coherent specs: every cell kind 
 
 TRK_RULE = ("; track fields: 400 (thorough 8000) x Track1/2/3 over 6 encodings x 7 prefix families x LL/LLL/L, default and track2 packer, well-formed components (3 in 4) and "
             "malformed ones (long PAN, '?', white space, bad separator, absent expiry/service code, FixedLength): populate-pack-String-filter-observe, round trip with "
-            "trailing bytes, mutated bytes, the same object used twice (also with an empty track), SetBytes with impossible months")
+            "trailing bytes, mutated bytes, the same object used twice (also with an empty track), SetBytes with impossible months; "
+            "wire inputs whose track text is not plain ASCII are left out (the track model counts bytes and trims ASCII white space)")
 
 
 
